@@ -372,40 +372,54 @@ def r08_5(ctx):
     ok = bool(a) and src(a[0].test).replace(' ', '') == "layoutin('packed','blocked')"
     ctx.decide('R08.5', av.qual, src(a[0].test) if a else 'layout check', ok, a[0] if a else av.node, 'admitted layouts')
     top = [s for s in av.node.body if isinstance(s, ast.If) and 'layout' in src(s.test) and 'format' in src(s.test)]
-    ok = bool(top) and src(top[0].test).replace(' ', '') == "layout=='packed'andformat=='bsr'" and bool(top[0].orelse)
-    ctx.decide('R08.5', av.qual, 'special case packed+bsr, everything else through the multi-level structure', ok, top[0] if top else av.node)
+
+    def taken(iff, env):
+        """the block executed by the if-chain under the given values of the option names (tests built from those names,
+        literals, comparisons, in / not in, and / or / not); None = not evaluable"""
+        allowed = (ast.Name, ast.Constant, ast.Compare, ast.BoolOp, ast.UnaryOp, ast.Tuple, ast.List, ast.Set, ast.Load, ast.And, ast.Or, ast.Not,
+                   ast.Eq, ast.NotEq, ast.Lt, ast.LtE, ast.Gt, ast.GtE, ast.In, ast.NotIn, ast.USub)
+        cur = iff
+        while True:
+            for x in ast.walk(cur.test):
+                if not isinstance(x, allowed) or (isinstance(x, ast.Name) and x.id not in env):
+                    return None
+            try:
+                v = bool(eval(compile(ast.Expression(cur.test), '<option-test>', 'eval'), {'__builtins__': {}}, dict(env)))
+            except Exception:
+                return None
+            if v:
+                return cur.body
+            if len(cur.orelse) == 1 and isinstance(cur.orelse[0], ast.If):
+                cur = cur.orelse[0]
+                continue
+            return cur.orelse or None
+
+    # the special case is taken for packed+bsr only; every other (layout, format) goes through the multi-level structure
+    els = None
     if top:
-        els = top[0].orelse
-        # decision table over dim: the if-chain on `dim` is evaluated for dim = 1, 2, 3, 4 (tests built from dim, integer
-        # literals, comparisons, in / not in, and / or / not); dim d <= 3 must reach the d-dimensional kernel, dim 4 the
-        # dimension-independent fallback
+        special = taken(top[0], {'layout': 'packed', 'format': 'bsr'})
+        others = [taken(top[0], {'layout': l, 'format': f}) for l in ('packed', 'blocked') for f in ('bsr', 'csr', 'csc', 'coo', 'mlb')
+                  if (l, f) != ('packed', 'bsr')]
+        if special is None or any(o is None for o in others):
+            ok = None
+        else:
+            ok = all(o is others[0] for o in others) and special is not others[0] and 'multi_blocks' in src(ast.Module(special, []))
+            els = others[0] if ok else None
+    else:
+        ok = False
+    ctx.decide('R08.5', av.qual, 'special case packed+bsr, everything else through the multi-level structure', ok, top[0] if top else av.node,
+               definite=True)
+    if els:
+        # decision table over dim: the if-chain on `dim` is evaluated for dim = 1, 2, 3, 4; dim d <= 3 must reach the
+        # d-dimensional kernel, dim 4 the dimension-independent fallback
         node = [s for s in els if isinstance(s, ast.If) and 'dim' in {x.id for x in ast.walk(s.test) if isinstance(x, ast.Name)}
                 and 'layout' not in src(s.test) and 'format' not in src(s.test)]
-
-        def taken(iff, d):
-            allowed = (ast.Name, ast.Constant, ast.Compare, ast.BoolOp, ast.UnaryOp, ast.Tuple, ast.List, ast.Set, ast.Load, ast.And, ast.Or, ast.Not,
-                       ast.Eq, ast.NotEq, ast.Lt, ast.LtE, ast.Gt, ast.GtE, ast.In, ast.NotIn, ast.USub)
-            cur = iff
-            while True:
-                for x in ast.walk(cur.test):
-                    if not isinstance(x, allowed) or (isinstance(x, ast.Name) and x.id != 'dim'):
-                        return None
-                try:
-                    v = bool(eval(compile(ast.Expression(cur.test), '<dim-test>', 'eval'), {'__builtins__': {}}, {'dim': d}))
-                except Exception:
-                    return None
-                if v:
-                    return cur.body
-                if len(cur.orelse) == 1 and isinstance(cur.orelse[0], ast.If):
-                    cur = cur.orelse[0]
-                    continue
-                return cur.orelse or None
         if not node:
             ctx.undecided('R08.5', av.qual, 'every dimension has a kernel or the generic fallback', els[0] if els else av.node, 'dispatch on dim not recognised')
         else:
             verdict, detail = True, []
             for d in (1, 2, 3, 4):
-                body = taken(node[0], d)
+                body = taken(node[0], {'dim': d})
                 if body is None:
                     verdict = None if verdict is not False else False
                     detail.append('dim %d: ?' % d)
